@@ -211,6 +211,14 @@ Plan generate(Rng &rng, const Opts &opts, uint64_t)
                 ++sid;
                 p.steps.push_back(mk(t, "ANNOT", {sid, ms[rng.below(ms.size())], inst}));
             }
+            if (inst != 0 && rng.chance(1, 2)) {
+                // ... or asked again about the model it already has, after the client has edited one identifier of it
+                long m = p.steps.back().a[1];
+                ++sid;
+                p.steps.push_back(mk(t, "EDIT", {sid, m, long(rng.below(8)), long(rng.below(16)), long(rng.below(3))}));
+                ++sid;
+                p.steps.push_back(mk(t, "ANNOT", {sid, m, inst}));
+            }
         } else {
             p.steps.push_back(mk(t, "EQUALS", {sid, ms[rng.below(ms.size())], ms[rng.below(ms.size())]}));
         }
@@ -695,7 +703,13 @@ void execute(const Plan &plan, Ctx &ctx)
             ctx.begin(stepNo, "ANNOT", inst == 0 ? "fresh-instance" : "reused-instance");
             AnnotatorPtr an = inst == 0 ? Annotator::create() : (w.annotators[inst] ? w.annotators[inst] : (w.annotators[inst] = Annotator::create()));
             std::string before = dumpModel(it->second, withLinks);
-            an->setModel(it->second);
+            if (inst == 0 || an->model() != it->second) {
+                an->setModel(it->second);
+            } else {
+                // a long-lived annotator that already works on this model is simply asked again: whatever the client has
+                // edited in the meantime must be noticed without being told
+                ctx.count("purity_annotator_asked_again_without_setModel");
+            }
             std::ostringstream o;
             // whatever the annotator returns must be an object of the model it was given now (not of a model it was given
             // before: a reused annotator must not answer from what it remembers)
